@@ -3,16 +3,17 @@
 
    `WF` (C01/Spec.v) is the property's statement on the model heap.  `step`/`run` (C01/Model.v)
    are the modelled public API calls.  PROVED mutators (WF-preservation for every state and every
-   argument): OpOperands.__setitem__, OpSuccessors.__setitem__ (any index, negative ones included,
+   argument): the Operation.operands setter, OpOperands.__setitem__, OpSuccessors.__setitem__ (any index, negative ones included,
    after fix f198beb), SSAValue.replace_all_uses_with, replace_uses_with_if, erase (and the PatternRewriter
    methods replace_all_uses_with / replace_uses_with_if), Block.insert_op_after, Block.insert_op_before, Block.add_op, Block.detach_op,
-   Operation.detach; the primitives IRWithUses.add_use / remove_use are proved against the use-list
+   Operation.detach, Region.detach_block (by block and by index), and -- for a SINGLE block --
+   Region.add_block, Region.insert_block_before, Rewriter.insert_block; the primitives IRWithUses.add_use / remove_use are proved against the use-list
    invariant `Uabs`.  ALL OTHER modelled mutators (see the constructor list of `call`) are covered by
    the lock-step correspondence with the real code plus the evaluation of the proved-sound checker
    `wf_b` on the model state after every call of every generated history -- not by a theorem. *)
 From Coq Require Import ZArith List Bool PArith FMapPositive.
 From XV Require Import C01.Model C01.Spec C01.ProofsWfb C01.ProofsFrame C01.ProofsUses C01.ProofsOperands
-  C01.ProofsRauw C01.ProofsDll C01.ProofsOps C01.ProofsHistory C01.ProofsDemo.
+  C01.ProofsRauw C01.ProofsSetOperands C01.ProofsDll C01.ProofsOps C01.ProofsBlocks C01.ProofsHistory C01.ProofsDemo.
 Import ListNotations.
 Local Open Scope Z_scope.
 
@@ -53,6 +54,11 @@ Theorem C01_operands_setitem_preserves : forall s s' o idx v r,
   WF s -> op_live s o -> operands_setitem o idx v s = (s', Ok r) -> WF s'.
 Proof. exact operands_setitem_WF. Qed.
 Print Assumptions C01_operands_setitem_preserves.
+
+Theorem C01_set_operands_preserves : forall s s' o new r,
+  WF s -> op_live s o -> set_operands o new s = (s', Ok r) -> WF s'.
+Proof. exact set_operands_WF. Qed.
+Print Assumptions C01_set_operands_preserves.
 
 Theorem C01_successors_setitem_preserves : forall s s' o idx b r,
   WF s -> op_live s o -> successors_setitem o idx b s = (s', Ok r) -> WF s'.
@@ -98,6 +104,29 @@ Theorem C01_detach_op_preserves : forall s s' b o r,
   WF s -> blk_live s b -> op_live s o -> detach_op b o s = (s', Ok r) -> WF s'.
 Proof. exact detach_op_WF. Qed.
 Print Assumptions C01_detach_op_preserves.
+
+Theorem C01_detach_block_preserves : forall s s' r b res,
+  WF s -> reg_live s r -> blk_live s b -> detach_block r b s = (s', Ok res) -> WF s'.
+Proof. exact detach_block_WF. Qed.
+Print Assumptions C01_detach_block_preserves.
+
+Theorem C01_detach_block_idx_preserves : forall s s' r idx res,
+  WF s -> reg_live s r -> detach_block_idx r idx s = (s', Ok res) -> WF s'.
+Proof. exact detach_block_idx_WF. Qed.
+Print Assumptions C01_detach_block_idx_preserves.
+
+(* the block-list insertions are proved for a single block (Region.add_block(b),
+   Region.insert_block_before(b, target), Rewriter.insert_block(b, point)) *)
+Theorem C01_add_block_single_preserves : forall s s' r b res,
+  WF s -> reg_live s r -> blk_live s b -> add_block r [b] s = (s', Ok res) -> WF s'.
+Proof. exact add_block1_WF. Qed.
+Print Assumptions C01_add_block_single_preserves.
+
+Theorem C01_insert_block_before_single_preserves : forall s s' r b target res,
+  WF s -> reg_live s r -> blk_live s b -> blk_live s target ->
+  insert_block_before r [b] target s = (s', Ok res) -> WF s'.
+Proof. exact insert_block_before1_WF. Qed.
+Print Assumptions C01_insert_block_before_single_preserves.
 
 (* every proved call constructor, as a step of the API machine *)
 Theorem C01_step_preserves : forall s c p,
